@@ -17,10 +17,11 @@ META = {
             "In (k,l) exceptions \\/ (resolves /\\ same_placeholders), closed by vm_compute (about 1400 keys x 4 languages); the "
             "exceptions computed by Coq are the reported findings (26 keys with no text in any language on the pinned tree, "
             "one known-finding signature per key; no placeholder mismatch). C38_fallback characterises the English fallback; "
-            "C38_negotiate / C38_negotiate_best: for every candidate list the negotiated language is a shipped one (or none) "
-            "and has maximal quality among the supported candidates. "
+            "C38_negotiate_header: for every header byte string and whatever ParseFloat returns for q values the result is \"\" or a "
+            "shipped language (model of the header parsing: split, trim, q=, primary subtag, lower case); C38_negotiate / "
+            "C38_negotiate_best: same over candidate lists, and the choice has maximal quality among the supported candidates. "
             "partial: keys computed at run time (66 call sites with a non-literal key argument) are listed, not checked; "
-            "header text -> candidate list parsing is replicated in the check, not modelled in Coq",
+            "strings.TrimSpace/ToLower are modelled on ASCII and strconv.ParseFloat only on plain decimals (correspondence headers are ASCII)",
     "note": "Trusted: Coq kernel; harness/C38/c38_test.go (dump of the messages map, go/ast key extraction, placeholder extraction "
             "in props/C38.py cross-checked on the real Text output); the interning of keys/languages/placeholders as numbers.",
 }
@@ -68,27 +69,43 @@ def parse_header(header):
     return out
 
 
+QOK = ["0", "1", "0.5", "0.9", "0.25", "1.0", "0.001", "0.999", ".5", "0.10", "0.7", "1.", "0.123456", "00.5", "2"]
+QBAD = ["abc", "", "05x", "--1", "1..2", "0.5.1", "q", "."]      # texts strconv.ParseFloat rejects
+
+
 def gen_headers(rng, n, langs):
+    """Accept-Language values: RFC style, POSIX-locale style (fr_CA, es.UTF-8, ja@euro) and otherwise odd tags."""
     fixed = ["", " ", "fr-CH, fr;q=0.9, en;q=0.8, de;q=0.7, *;q=0.5", "de", "DE-at", "*", "en", "EN-us", "ja;q=0.1, es;q=0.1",
              "de;q=1, es;q=0.999, fr;q=1.0", "xx, yy;q=0.5", "es;q=abc, fr;q=0.5", ",,fr,,", "-fr, en", "fr;q=0, en;q=0",
              "es ; q=0.3 , ja ; q=0.7", "fr;level=1;q=0.2, ja;q=0.3", "zh-Hant-TW, ja-JP;q=0.9", "en;q=0.5, en;q=0.9, es;q=0.7",
-             "es;q=0.5;q=0.9, fr;q=0.8", "fr;Q=0.1, es;q=0.5"]
-    pool = list(langs) + ["de", "zh", "it", "pt", "xx", "EN", "Fr", "JA", "eS"]
+             "es;q=0.5;q=0.9, fr;q=0.8", "fr;Q=0.1, es;q=0.5",
+             # POSIX-locale spellings and odd tags (seeded change C38-1: the supported test and the returned tag must agree)
+             "fr_CA", "es.UTF-8", "ja@euro", "de;q=0.9,es_MX;q=0.5", "en_US.UTF-8", "FR_ca", "fr_", "_fr", "fr.", "fr@", "@", ".", "_",
+             "-", "fr-", "ja_JP.eucJP@x, de", "C", "POSIX", "es_MX;q=0.5, xx", "*-fr", "*;q=1, ja_JP", "e n", "\tfr_CA \t", "fr;q=0.5,es@x",
+             "en.utf8;q=0.1, fr_FR;q=0.2", "Ja", "jA-jp", "es_419", "fr__CA", "en-_US", "zz, es.ISO8859-1;q=0.3"]
+    pool = list(langs) + ["de", "zh", "it", "pt", "xx", "EN", "Fr", "JA", "eS", "c", "posix"]
     out = list(fixed)
     while len(out) < n:
         k = rng.randint(1, 6)
         items = []
         for _ in range(k):
             t = rng.choice(pool)
-            if rng.random() < 0.4:
-                t += "-" + rng.choice(["US", "ch", "419", "Hant-TW"])
             r = rng.random()
-            if r < 0.6:
-                t += rng.choice([";q=", "; q=", " ;q="]) + rng.choice(["0", "1", "0.5", "0.9", "0.25", "1.0", "0.001", "0.999", ".5", "0.10", "0.7"])
+            if r < 0.3:
+                t += "-" + rng.choice(["US", "ch", "419", "Hant-TW", ""])
+            elif r < 0.6:
+                t += rng.choice(["_", ".", "@"]) + rng.choice(["CA", "MX", "UTF-8", "euro", "utf8", "", "JP.eucJP", "FR@x"])
+            elif r < 0.65:
+                t = rng.choice(["*", "", " ", "_" + t, "." + t, "@" + t, "-" + t])
+            r = rng.random()
+            if r < 0.55:
+                t += rng.choice([";q=", "; q=", " ;q=", ";\tq="]) + rng.choice(QOK)
             elif r < 0.7:
-                t += ";q=" + rng.choice(["abc", "", "0,5x", "--1"]).replace(",", "")
+                t += ";q=" + rng.choice(QBAD)
+            elif r < 0.75:
+                t += ";" + rng.choice(["level=1", "Q=0.2", "q", "q =0.5", ""])
             items.append(t)
-        out.append(rng.choice([", ", ",", " , "]).join(items))
+        out.append(rng.choice([", ", ",", " , ", ",\t"]).join(items))
     return out
 
 
@@ -96,14 +113,14 @@ def run(ck):
     quick = ck.tier == "quick"
     ck.cov["rule"] = ("domain: every constant message key found in the non-test Go source (go/ast) x every language of the compiled "
                       "messages map; headers: fixed list + generated Accept-Language values (tags from shipped and foreign "
-                      "languages, regions, case, q parameters incl. malformed). distinct_nontrivial = distinct (key, language) "
+                      "languages, regions, POSIX-locale spellings with _ . @, empty subtags, *, blanks/tabs, case, q parameters incl. malformed). distinct_nontrivial = distinct (key, language) "
                       "pairs that resolve by the English fallback or carry placeholders, plus distinct headers with >= 2 candidates")
     ck.assume("a call site whose key argument is not a string literal is outside the checked domain (listed as remainder)",
               "ui.Log / ui.WriteLog literals containing a blank or no '.' are log texts, not keys (ui.FormatLogMessage's own rule)",
               "errors.Message constants starting with '_' are flow-control signals documented as not localized")
     ck.trusted("harness/C38/c38_test.go: dump of the compiled messages map, go/ast extraction of keys, real Text/NegotiateLanguage calls",
-               "props/C38.py: interning of keys/languages/placeholders as numbers, placeholder extraction ({{name|format}}), header parsing replica")
-    thms = ["C38_fallback", "C38_all_resolve", "C38_negotiate", "C38_negotiate_best"]
+               "props/C38.py: interning of keys/languages/placeholders as numbers, placeholder extraction ({{name|format}}), header parsing replica (only used to count candidates)")
+    thms = ["C38_fallback", "C38_all_resolve", "C38_negotiate", "C38_negotiate_best", "C38_negotiate_header"]
     ck.coq_stage(GROUP, theorems=thms)
 
     ok, binp = vf.go_test_build(ck.work, "internal/i18n", {"internal/i18n/zz_verif_c38_test.go": os.path.join(vf.HARNESS, "C38", "c38_test.go")},
@@ -114,7 +131,7 @@ def run(ck):
         return
     # languages are not known before the first run: headers use the usual four plus whatever the tree ships (second pass not needed:
     # unknown languages in the pool are simply unsupported candidates)
-    headers = gen_headers(ck.rng, 150 if quick else 1500, ["en", "es", "fr", "ja"])
+    headers = gen_headers(ck.rng, 300 if quick else 3000, ["en", "es", "fr", "ja"])
     if ck.replay_file:
         rp = json.load(open(ck.replay_file))["replay"]
         headers = rp.get("headers", []) or headers[:3]
@@ -197,10 +214,7 @@ def run(ck):
                 ids = sorted(phid.setdefault(p, len(phid)) for p in placeholders(t))
                 ents.append("(%d, (%d, %s))" % (lid[l], len(t.encode()), vf.vN(ids)))
         rows.append("(%d, [%s])" % (kid[k], "; ".join(ents)))
-    cands_cases = []
-    for h in headers:
-        if h in neg and all(q is not None for _, q in parse_header(h)):
-            cands_cases.append((h, parse_header(h), neg[h]))
+    neg_cases = [h for h in headers if h in neg and all(ord(c) < 128 for c in h)]
     gen = ["From Msg Require Import Model Proofs Properties.", "Open Scope N_scope.",
            "Definition table_now : table := [", ";\n".join(rows), "].",
            "Definition keys_now : list N := %s." % vf.vN(kid[k] for k in keys),
@@ -212,8 +226,8 @@ def run(ck):
            "Proof. apply C38_all_resolve. vm_compute. reflexivity. Qed.",
            "Print Assumptions C38_this_tree.",
            "Definition supported_now : list str := [%s]." % "; ".join(vf.vrunes(l) for l in langs),
-           "Definition ncases : list (list cand * str) := [",
-           ";\n".join("([%s], %s)" % ("; ".join("(%s, %d%%Z)" % (vf.vrunes(p), q) for p, q in c), vf.vrunes(r)) for _, c, r in cands_cases),
+           "Definition ncases : list (str * str) := [",
+           ";\n".join("(%s, %s)" % (vf.vstr(h), vf.vstr(neg[h])) for h in neg_cases),
            "].",
            "Fixpoint idx {A} (f : A -> bool) (i : nat) (l : list A) : list nat :=",
            "  match l with [] => [] | x :: r => (if f x then [] else [i]) ++ idx f (S i) r end.",
@@ -221,7 +235,7 @@ def run(ck):
            "Definition pick (k l : N) : N := match translate table_now k l with TLang _ => 0 | TEnglish _ => 1 | TKey => 2 end."]
     okc, res = vf.coq_eval(GROUP, ck.work, "Messages", "\n".join(gen), {
         "EXC": "flat_map (fun p => [fst p; snd p]) exceptions",
-        "NEG": "idx (fun c => str_eqb (negotiate supported_now (fst c)) (snd c)) 0%nat ncases",
+        "NEG": "idx (fun c => str_eqb (negotiate_header parse_q_dec supported_now (fst c)) (snd c)) 0%nat ncases",
         "PICK": "flat_map (fun k => map (pick k) langs_now) keys_now",
     })
     ck.cov["checker_cmd"] += " ; coqc <generated Messages.v: table/keys/langs of this tree, C38_this_tree by vm_compute>"
@@ -256,11 +270,13 @@ def run(ck):
                     l, k, ["the language's text", "the English text", "the key"][p], txt.get((k, l))), replay={"key": k, "lang": l},
                     found_input=False)
     for i in res["NEG"]:
-        h = cands_cases[i][0]
+        h = neg_cases[i]
+        if any(v["signature"] == "negotiate-unsupported" and h in v["replay"].get("headers", []) for v in ck.viol):
+            continue            # already reported with this header as the failing input
         ck.violation("corr-negotiate", "model/implementation disagree on NegotiateLanguage(%r): real %r, candidates %s" % (
-            h, neg[h], cands_cases[i][1]), replay={"headers": [h]}, found_input=False)
+            h, neg[h], parse_header(h)), replay={"headers": [h]}, found_input=False)
     ck.cov["evaluations"] = len(keys) * len(langs) + len(headers)
-    ck.cov["traces_validated_against_impl"] = len(keys) * len(langs) + len(cands_cases)
+    ck.cov["traces_validated_against_impl"] = len(keys) * len(langs) + len(neg_cases)
     ck.cov["distinct_nontrivial"] = len(nontriv)
     for k in keys[:3]:
         ck.sample({"key": k, "sites": keysites[k][:2], "languages_with_text": sorted(msgs.get(k, {}))})
